@@ -1,6 +1,6 @@
 (* EncapRun.v — line-protocol adapter for the Encap model (harness glue, executable). *)
 From Coq Require Import List NArith Bool Arith String.
-From Snow Require Import Lib.Wire Model.Encap Model.EncapFail.
+From Snow Require Import Lib.Wire Model.Encap Model.EncapFail Model.EncapServer.
 Import ListNotations.
 Open Scope N_scope.
 
@@ -75,6 +75,19 @@ Definition run (args : list bytes) : bytes :=
             let r := read_stream_x s sc in
             bs "chunks=" ++ list_print (map (fun d => 120 :: hex_encode d) (fst r)) ++ bs " err="
                ++ (match snd r with XIo => bs "io" | XTooLong => bs "toolong" end)
+        | _, _ => ERR_BADCASE
+        end
+      (* srv: the server's reader (server/lib/http.go): token and ClientID by io.ReadFull, then ReadData in a loop, all on
+         the same reader whose fragmentation (the carrier's WebSocket messages) is the script *)
+      else if beq op (bs "srv") then
+        match payload_parse a, list_parse script_entry_parse b with
+        | Some s, Some sc =>
+            match server_read s sc with
+            | SShort e => bs "short err=" ++ err_print e
+            | SOk tok cid ps e =>
+                bs "tok=x" ++ hex_encode tok ++ bs " cid=x" ++ hex_encode cid ++ bs " packets="
+                   ++ list_print (map (fun d => 120 :: hex_encode d) ps) ++ bs " err=" ++ err_print e
+            end
         | _, _ => ERR_BADCASE
         end
       else if beq op (bs "dec0") then
